@@ -7,11 +7,11 @@ From WP Require Import Spec.Sxg.
 Open Scope N_scope.
 
 (* header names are RFC 7230 tokens (so ASCII, and never ":method", ":url",
-   ":status"), pairwise distinct once lower-cased: what a Go http.Header built
-   through Add/Set from wire names satisfies *)
+   ":status"): what a Go http.Header holding wire names satisfies.  That the
+   names of one map are pairwise distinct once lower-cased is NOT assumed: Write
+   refuses such a map (duplicate CBOR key), see write_read. *)
 Definition name_ok (n : bytes) : bool := forallb is_tchar n.
-Definition headers_ok (h : headers) : bool :=
-  forallb (fun nv => name_ok (fst nv)) h && distinct (map (fun nv => lower (fst nv)) h).
+Definition headers_ok (h : headers) : bool := forallb (fun nv => name_ok (fst nv)) h.
 
 Definition int64_b (z : Z) : bool :=
   ((-9223372036854775808 <=? z) && (z <? 9223372036854775808))%Z.
